@@ -28,6 +28,7 @@ RULE = (
     "decode to themselves. Non-trivial = a backslash adjacent to a wildcard/backslash/quote, or an "
     "escaped wildcard, or a field name with a special character."
 )
+RULE += (" " + "(4c) the {regex} slot that every string template offers (field-bound, case-sensitive and unbound templates): strings up to length 3/4 over (backslash, '*', '?', a letter, the regex-literal delimiter), delimiter in {double quote, slash}, protected either by add_escaped_re or by re_escape; the literal is decoded by the target's rules, must end exactly at the closing delimiter and must match exactly the subjects (all strings up to length 3) the glob pattern matches.")
 ASSUMPTIONS = [
     "vf/ref/strings.py is the Sigma string syntax; glob semantics '*' any run, '?' one character",
     "python's re module defines regular-expression matching; subjects contain no newline",
